@@ -90,11 +90,15 @@ def c07(tier, hook=None):
                               (("Eq", "PartialEq"), None), (("Ord", "PartialOrd", "Eq", "PartialEq", "Hash", "Debug"), None), (("Copy", "Eq", "PartialEq"), None)):
             for entry in (("attr", "derive") if tier == "thorough" else ("attr",)):
                 guises.append((sh, masks[-1], entry, False, extra, bounds))
+        # layout attributes on a struct of Copy, alignment-1 recording fields
+        if len(sh) == 1 and sh[0] >= 1:
+            for rp in ("packed", "C, packed", "C"):
+                guises.append((sh, masks[-1], "attr", False, ("Copy",), None, False, rp))
         # explicit discriminants on every variant (primitive repr), tuple and named guises
         if len(sh) > 1:
             for mask in (0, (1 << len(sh)) - 1):
                 guises.append((sh, mask, "attr" if mask else "derive", False, (), None, True))
-    mods = [(i, rf.clone_module(i, list(g[0]), g[2], g[1], g[3], g[4], g[5], disc=(len(g) > 6 and g[6]))) for i, g in enumerate(guises)]
+    mods = [(i, rf.clone_module(i, list(g[0]), g[2], g[1], g[3], g[4], g[5], disc=(len(g) > 6 and g[6]), repr_=(g[7] if len(g) > 7 else None))) for i, g in enumerate(guises)]
     # seeded histories (stateful validation of longer runs)
     rnd = random.Random(dx.seed())
     nh = 40 if tier == "quick" else 10000
@@ -155,6 +159,11 @@ def c07(tier, hook=None):
                 for entry in ("attr", "derive"):
                     fmods.append((len(fmods), rf.clone_fieldwise_module(len(fmods), kind, forms, entry)))
                     fmeta.append((kind, forms, entry))
+        # field names that differ only in leading underscores / a raw prefix / letter case
+        for fn in (["_x", "x"], ["x", "_x", "x_"], ["r#type", "type_"], ["dx", "dX", "DX"], ["_0", "_1"]):
+            for entry in ("attr", "derive"):
+                fmods.append((len(fmods), rf.clone_fieldwise_module(len(fmods), "enum", [6] * len(fn), entry, fnames=fn)))
+                fmeta.append(("enum", fn, entry))
         fres, ffailed = run_modules(fmods, "c07f")
         for i, fm in enumerate(fmeta):
             if i in fres:
@@ -232,9 +241,19 @@ def c08(tier, hook=None):
         guises.append((n, "named", "attr" if n % 2 else "derive", False, None, None, "Tm", None, nm, False))
     for (n, kind) in ((1, "tuple"), (2, "named"), (3, "tuple")):
         guises.append((n, kind, "attr" if n % 2 else "derive", False, None, None, "Tm", None, None, True))
+    # sibling modules called `core` / `std` next to the struct (only absolute paths are safe)
+    for (n, kind) in ((1, "tuple"), (2, "named")):
+        guises.append((n, kind, "attr" if n % 2 else "derive", False, None, None, "Tm", None, None, False, True))
     mods = [(i, rf.ops_module(i, g[0], g[1], g[2], generic=g[3], bounds=g[4], selfbound=(g[5] if len(g) > 5 else None),
                               leaf=(g[6] if len(g) > 6 else "Tm"), repr_=(g[7] if len(g) > 7 else None),
-                              names=(g[8] if len(g) > 8 else None), with_default=(g[9] if len(g) > 9 else False))) for i, g in enumerate(guises)]
+                              names=(g[8] if len(g) > 8 else None), with_default=(g[9] if len(g) > 9 else False),
+                              shadow_core=(g[10] if len(g) > 10 else False))) for i, g in enumerate(guises)]
+    macro_from = len(mods)
+    if not hook:
+        for frag in ("ident", "tt"):
+            for entry in ("attr", "derive"):
+                mods.append((len(mods), rf.ops_macro_module(len(mods), frag, entry)))
+                guises.append((2, "macro_rules:" + frag, entry, False, None))
     mods = T(mods)
     res, failed = run_modules(mods, "c08")
     events, meta = [], []
@@ -242,6 +261,13 @@ def c08(tier, hook=None):
         if i not in res:
             events.append({"ev": "rustc_failed"})
             meta.append({"guise": g, "diags": failed.get(i)})
+            continue
+        if str(g[1]).startswith("macro_rules"):
+            for j in res[i]:
+                e = dict(j)
+                e.pop("id")
+                events.append(e)
+                meta.append({"guise": g})
             continue
         seen = set()
         for j in res[i]:
@@ -262,7 +288,7 @@ def c08(tier, hook=None):
         if e["ev"] == "rustc_failed":
             sig = {"kind": "rustc_failed", "guise": str(m["guise"]), "codes": ",".join(sorted(set(d.get("code") or "?" for d in (m.get("diags") or []))))}
         else:
-            sig = {"kind": e["ev"], "op": e["op"], "lref": e.get("lref"), "rref": e.get("rref"), "fields": e["n"], "struct": m["guise"][1]}
+            sig = {"kind": e["ev"], "op": e.get("op"), "lref": e.get("lref"), "rref": e.get("rref"), "fields": e.get("n"), "struct": m["guise"][1]}
         ck.violation(sig, {"what": "struct-derived operator: result / call log / operand state not explained by DxRun", "event": e, "guise": m["guise"],
                            "diags": m.get("diags")})
     ck.sample(next((e for e in events if e["ev"] == "binop" and e["n"] == 2), None))
@@ -323,6 +349,23 @@ def c09(tier, hook=None):
                         mods.append((idx, src))
                         descs.append(d)
                         reqs.append({"k": "expand", "id": idx, "entry": "attr", "attr": req["attr"], "item": req["item"]})
+                    # one list per trait, stacked on the impl (the second one is expanded by rustc afterwards)
+                    if c["want_bin"] and c["want_assign"] and generic is None and not c["base_is_assign"]:
+                        idx = len(mods)
+                        src, req, d = rf.implop_module(idx, op, (c["bl"], c["br"]), rhs_self, True, True, False, stacked=True)
+                        d["stacked"] = True
+                        d["skip_forms"] = True       # in-process only the first list is expanded
+                        mods.append((idx, src))
+                        descs.append(d)
+                        reqs.append({"k": "expand", "id": idx, "entry": "attr", "attr": req["attr"], "item": req["item"]})
+                    # a right operand type that is not Clone where no derived form needs it by value
+                    if (not rhs_self) and c["br"] == "r" and generic is None and not c["base_is_assign"]:
+                        idx = len(mods)
+                        src, req, d = rf.implop_module(idx, op, (c["bl"], c["br"]), False, c["want_bin"], c["want_assign"], False, rhs_noclone=True)
+                        d["rhs_noclone"] = True
+                        mods.append((idx, src))
+                        descs.append(d)
+                        reqs.append({"k": "expand", "id": idx, "entry": "attr", "attr": req["attr"], "item": req["item"]})
                     # `Self` inside a projection in Output / where-clause
                     if not c["base_is_assign"] and generic is None and c["bl"] == "v":
                         idx = len(mods)
@@ -346,7 +389,7 @@ def c09(tier, hook=None):
     events, meta = [], []
     for idx, d in enumerate(descs):
         r = resps[idx]
-        if not d["base_is_assign"]:
+        if not d["base_is_assign"] and not d.get("skip_forms"):
             binf, asg = impl_forms_of(r, d["op"])
             events.append({"ev": "implforms", "base": d["base"], "want_bin": d["want_bin"], "want_assign": d["want_assign"],
                            "bin_forms": binf, "assign_forms": asg})
@@ -491,6 +534,14 @@ def c10(tier, hook=None):
         entry = brnd.choice(["attr", "derive"])
         mods.append((idx, rf.debug_module(idx, d, entry, rnd, bounds=b)))
         meta.append((d, entry))
+    macro_ids = []
+    if not hook:
+        for frag in ("ty", "tt"):
+            for entry in ("attr", "derive"):
+                idx = len(mods)
+                mods.append((idx, rf.debug_macro_module(idx, frag, entry)))
+                meta.append(({"kind": "macro_rules", "frag": frag}, entry))
+                macro_ids.append(idx)
     mods = T(mods)
     res, failed = run_modules(mods, "c10")
     events, emeta = [], []
@@ -525,6 +576,8 @@ def c10(tier, hook=None):
         e, m = events[i], emeta[i]
         if e["ev"] == "rustc_failed":
             sig = {"kind": "rustc_failed", "codes": ",".join(sorted(set(d.get("code") or "?" for d in (m.get("diags") or []))))}
+        elif e["ev"] == "same_as_twin":
+            sig = {"kind": "macro_rules_item", "frag": m["desc"].get("frag")}
         else:
             dbgs = sorted(set(f["dbg"] for f in e["fields"]))
             sig = {"kind": "debug", "named": e["named"], "nfields": len(e["fields"]), "dbg": "+".join(dbgs), "twin_equal": e["twin_equal"],
@@ -543,7 +596,7 @@ def c10(tier, hook=None):
 # C11
 # ------------------------------------------------------------------------------------------------
 def default_descs(tier, rnd):
-    kinds = ["none", "str", "path", "assoc_path", "into_path", "call", "block", "method", "int", "neg", "bytes"]
+    kinds = ["none", "str", "empty_str", "path", "assoc_path", "into_path", "call", "block", "method", "int", "neg", "bytes"]
     out = []
 
     def flds(n, choice=None):
@@ -731,6 +784,11 @@ def c18(tier, hook=None):
                             else:
                                 it3 = "struct X(%s);" % ", ".join((mark if j == pos else "") + "u8" for j in range(n))
                             rej.append((n, [co] + traits if pos == 0 else traits + [co], it3))
+    # marker fields do not make a struct a newtype
+    for traits in (["Deref"], ["DerefMut"], ["Deref", "DerefMut"]):
+        for it in ("struct X<T>(u32, ::core::marker::PhantomData<T>);", "struct X<T> { tag: ::core::marker::PhantomData<T>, v: u32, tag2: ::core::marker::PhantomData<T> }",
+                   "struct X<T>(::core::marker::PhantomData<T>, ::core::marker::PhantomData<T>);", "struct X(u8, ());"):
+            rej.append((2, traits, it))
     rr = dx.expand([{"k": "expand", "id": i, "entry": "attr" if i % 2 == 0 else "derive", "attr": ", ".join(t) if i % 2 == 0 else "",
                      "item": it if i % 2 == 0 else "#[derive_ex(%s)] %s" % (", ".join(t), it)} for i, (n, t, it) in enumerate(rej)])
     for (nf, traits, item), r in zip(rej, rr):
@@ -755,6 +813,18 @@ def c18(tier, hook=None):
         ok, diags = dx.check_only("p%d" % k, src, wdp)
         events.append({"ev": "deref_pinned", "rustc_ok": bool(ok)})
         emeta.append({"case": ("deref_pinned", src), "idx": None, "diags": dx.diag_summary(diags)[:2]})
+    # field types that need care behind `&`: the single field of these structs is a legitimate Deref target and the impl must compile
+    okprogs = []
+    for item in ("pub struct X<'a>(pub dyn ::core::fmt::Debug + 'a);", "pub struct X { pub inner: dyn ::core::fmt::Debug + 'static }",
+                 "pub struct X<'a> { pub f: &'a (dyn ::core::fmt::Debug + Send) }", "pub struct X(pub ::std::boxed::Box<dyn ::core::ops::Fn(u8) -> u8 + Send>);",
+                 "pub struct X(pub [u8]);", "pub struct X<T: ?::core::marker::Sized>(pub T);", "pub struct X(pub fn(&u8) -> &u8);", "pub struct X<'a, T>(pub &'a mut [T]);"):
+        for entry in ("attr", "derive"):
+            head = "#[::derive_ex::derive_ex(Deref, DerefMut)]" if entry == "attr" else "#[derive(::derive_ex::Ex)] #[derive_ex(Deref, DerefMut)]"
+            okprogs.append("#![allow(dead_code)]\n%s %s\n" % (head, item))
+    for k, src in enumerate(okprogs):
+        ok, diags = dx.check_only("q%d" % k, src, wdp)
+        events.append({"ev": "deref_compiles", "rustc_ok": bool(ok)})
+        emeta.append({"case": ("deref_compiles", src), "idx": None, "diags": dx.diag_summary(diags)[:2]})
     import shutil
     shutil.rmtree(wdp, ignore_errors=True)
     n, bad, jst = dx.tlc_judge("Trace_Run", "Trace_Run.cfg", events, "c18")
